@@ -282,6 +282,14 @@ func (u *Upload) InsertRecord(r *benchfmt.Result) error {
 		u.insertRecordArgs[len(u.insertRecordArgs)-1] = data
 		return nil
 	}
+	// Flush before starting a record rather than while queueing its labels:
+	// a flush forgets lastResult, and the results that follow with the same
+	// labels could no longer be appended to the record just sent.
+	if len(u.insertLabelArgs)+4*(len(r.Labels)+len(r.NameLabels)) >= 990 {
+		if err := u.flush(); err != nil {
+			return err
+		}
+	}
 	// TODO(quentin): Support multiple lines (slice of results?)
 	var buf bytes.Buffer
 	if err := benchfmt.NewPrinter(&buf).Print(r); err != nil {
